@@ -519,6 +519,26 @@ inline std::string exec_pattern(const Op& op, char& status) {
   add_field(o, "test", !t ? "error" : (*t ? "true" : "false"));
   add_field(o, "exec", !e ? "error" : (e->has_value() ? "result" : "null"));
   add_field(o, "match", !m ? "error" : (m->has_value() ? "result" : "null"));
+  if (itype == 1) {
+    // History independence: a pattern object that has already answered queries must answer the next one like a freshly
+    // constructed object. The same input is tested again with ANOTHER base (and once more with the first one).
+    static const std::string_view other_base = "https://other.example/dir/file?q#f";
+    const std::string_view* b2 = ibase ? &other_base : nullptr;
+    auto again_other = pat->test(input, ibase ? b2 : &other_base);
+    auto again_first = pat->test(input, ibase);
+    tl::expected<ada::url_pattern<Provider>, ada::errors> fresh = tl::unexpected(ada::errors::type_error);
+    if (ptype == 0) fresh = ada::parse_url_pattern<Provider>(arg(0) ? std::string_view(*arg(0)) : std::string_view(), pbase, &opts);
+    else fresh = ada::parse_url_pattern<Provider>(make_init(op.args, 0), nullptr, &opts);
+    auto render = [](const ada::result<bool>& r) { return !r ? std::string("error") : std::string(*r ? "true" : "false"); };
+    std::string used = render(again_other) + "," + render(again_first);
+    std::string clean = "construct-failed";
+    if (fresh) {
+      auto f_other = fresh->test(input, ibase ? b2 : &other_base);
+      clean = render(f_other) + "," + render(t);
+    }
+    add_field(o, "test.again", used);
+    add_field(o, "test.fresh", clean);
+  }
   if (e && e->has_value()) {
     auto& r = **e;
     o += "exec.inputs=" + std::to_string(r.inputs.size()) + "\x1f";
